@@ -22,6 +22,10 @@ def cases(tier, seed):
         yield cid, {"specs": specs, "tier": tier}
     for i, seq in enumerate(C.mixing_sequences()):
         yield f"C04|mixing|{i:02d}|{seq[0][0]}", {"specs": seq, "tier": tier}
+    # encoders restored from another encoder's checkpoint (B.load_state_dict(A.state_dict())): encode followed by the restored object's own
+    # extraction is again the identity
+    for i, seq in enumerate(C.restore_pairs()):
+        yield f"C04|restore|{i:02d}|{seq[0][0]}", {"specs": seq, "tier": tier, "restore": True}
     # block-count arithmetic: EVERY (n, k) with k < n <= 64 [96] x b = 1..8 concatenated blocks (shapes only depend on n, k, b)
     for n in range(2, 65 if tier == "quick" else 97):
         yield f"C04|dims|n={n:02d}", {"dims_n": n, "tier": tier}
@@ -34,6 +38,19 @@ def component_of(p):
 def execute(p, res):
     if "dims_n" in p:
         return dims_case(p, res)
+    if p.get("restore"):
+        specs = p["specs"]
+        for a, b in zip(specs, specs[1:]):
+            encA, encB = construct(a, res), construct(b, res)
+            if encA is None or encB is None:
+                continue
+            try:
+                encB.load_state_dict(encA.state_dict())
+            except Exception:  # noqa: BLE001
+                res.rejected += 1
+                continue
+            check((a[0], f"{b[1]} <- state of {a[1]}", a[2]), p["tier"], res, enc=encB)
+        return
     for spec in p["specs"]:
         check(spec, p["tier"], res)
 
@@ -111,10 +128,11 @@ def _fill(msgs, shape, k):
     return torch.tensor(flat, dtype=torch.float32).reshape(shape)
 
 
-def check(spec, tier, res):
+def check(spec, tier, res, enc=None):
     import torch
     fam, cfg, prm = spec
-    enc = construct(spec, res)
+    if enc is None:
+        enc = construct(spec, res)
     if enc is None:
         return
     n, k = int(enc.code_length), int(enc.code_dimension)
